@@ -12,6 +12,9 @@
 //            PR_COMMAND_GETDATATREES (the public face of SaveNodeTreeToMessage) and PR_COMMAND_SETDATATREES (must be bounced).
 //            A third of the sessions use only ONE index-creating operation all their life (insert / add-to-index / reorder / clone /
 //            restore / SetDataNode): which server path made a session's indexes decides whether it gets own-node snapshots (F15).
+//            A quarter of the histories run on a server with small limits in its central state (3-6 children per node and/or 6-30 nodes
+//            per session, possibly different for sessions joining later), 3% have index nodes at depths 99 and 100 (MUSCLE_MAX_NODE_DEPTH),
+//            so that ordered inserts by every path are REFUSED at arbitrary points; a refused insert must leave no trace.
 //            Every session may subscribe (plain, two patterns at once, or BATCH{quiet subscribe, GETDATA}) to its OWN and to foreign
 //            index nodes and unsubscribe again; each keeps per node path a list and applies every PR_RESULT_INDEXUPDATED string
 //            in arrival order (c / i<pos>:<name> / r<pos>:<name>; a remove that does not fit, an insert beyond the end or a
@@ -31,6 +34,7 @@
 //   regress  fixed witnesses: F15 (index created only by REORDERDATA, own-node subscription), F32 (generated child names are a
 //            function of the node's history, not of the process's), repeated add-to-index, hostile tree restore + save/restore
 //            round trip, SETDATATREES bounce, the documentation examples of INSERTORDEREDDATA / REORDERDATA, oracle self-tests,
+//            refused ordered inserts (child limit, node limit, depth limit) leave no trace,
 //            and the two defects this harness found in CloneDataNodeSubtree (fixed in /repo by "fix: CloneDataNodeSubtree() could
 //            list a child twice in the clone's index, and did not set _indexingPresent"); both keep their own keys (clone|...) and
 //            their classification in mode=index, so that a regression is reported as what it is and the history goes on.
@@ -160,7 +164,12 @@ struct Actor {
    bool cloneFlagHazard, ownPoisoned;   // see KEY_CLONE_FLAG
    int style;                           // 0: every operation; k>0: the only index-creating operation this session ever uses is STYLE_KIND[k] (the others become plain SETDATA)
    Actor() : c(NULL), id(0), reflect(false), gone(false), cursor(0), cloneFlagHazard(false), ownPoisoned(false), style(0), settreesSent(0), settreesBounced(0), hcSent(0), hcAnswered(0) {}
-   bool Tracked(const std::string & path) const { for (size_t i = 0; i < subs.size(); i++) if (RefPathMatch(subs[i], path)) return true; return false; }
+   bool Tracked(const std::string & path) const
+   {
+      const long slashes = (long)std::count(path.begin(), path.end(), '/');   // cheap rejection by depth first (paths can be 100 levels deep)
+      for (size_t i = 0; i < subs.size(); i++) { const std::string c = CanonSub(subs[i]); if ((long)std::count(c.begin(), c.end(), '/') + 1 == slashes && RefPathMatch(subs[i], path)) return true; }
+      return false;
+   }
    bool Own(const std::string & path) const { return Under(path, c->root); }
    void ForgetUntracked() { for (std::map<std::string, Names>::iterator it = lists.begin(); it != lists.end(); ) { if (Tracked(it->first)) ++it; else lists.erase(it++); } }
 };
@@ -537,7 +546,7 @@ static void RunHistory(long k, uint64_t seed, long nOps)
    Bench bench; Hist h; h.b = &bench; h.styles = true; g_deep.clear();
    { Options o; o.reflectToSelf = true; h.obs = bench.AddClient(o); }
    // a quarter of the histories run on a server with small limits (they may change between joins), a few have index nodes at the depth limit
-   const uint32 flavour = R(100); const bool limited = flavour < 25, deep = flavour >= 25 && flavour < 29;
+   const uint32 flavour = R(100); const bool limited = flavour < 25, deep = flavour >= 25 && flavour < 28;
    if (limited) { const uint32 m = R(10); SetLimits(h, m < 8 ? 3 + R(4) : MUSCLE_NO_LIMIT, (m >= 6) ? 6 + R(25) : MUSCLE_NO_LIMIT); vh::stat("histories_with_limits"); }
    if (deep) { g_deep.push_back(Chain(MUSCLE_MAX_NODE_DEPTH - 3)); g_deep.push_back(Chain(MUSCLE_MAX_NODE_DEPTH - 2)); vh::stat("histories_with_deep_index_nodes"); }
    const uint32 nInit = 1 + R(3);
@@ -834,6 +843,35 @@ static void RegressCloneTwice()
    Check(h);
    vh::stat("regress_clone_twice");
 }
+// a refused ordered insert (children-per-node limit, nodes-per-session limit, depth limit) leaves no trace in the index
+static void RegressRefusals()
+{
+   Bench bench; Hist h; h.b = &bench; { Options o; o.reflectToSelf = true; h.obs = bench.AddClient(o); }
+   SetLimits(h, 4, MUSCLE_NO_LIMIT);
+   Actor * a = AddActor(h, false); Actor * w = AddActor(h, false); const std::string L = a->c->root + "/L";
+   w->c->Send(CmdSubscribe(Names(1, "L"), false)); w->subs.push_back("L");
+   a->c->Send(CmdSet("L", false, false, 1)); a->c->Send(CmdInsert(Names(1, "L"), Names(4, "atEnd"))); h.log.push_back("child limit 4; INSERTORDERED L x4"); Check(h);
+   std::set<std::string> kids; const Names B = TrueIndex(h, L, &kids);
+   EXPECT(h, B.size() == 4, "regress|refusals_setup", "index " + Join(B)); if (h.bad) return;
+   a->c->Send(CmdInsert(Names(1, "L"), Names(1, B[1]))); h.log.push_back("INSERTORDERED L before " + B[1] + " (a fifth child: to be refused)"); Check(h);
+   EXPECT(h, TrueIndex(h, L, &kids) == B && kids.size() == 4, "regress|refused_insert_left_a_trace", "children-per-node limit: index before " + Join(B) + ", after " + Join(TrueIndex(h, L)));
+   a->c->Send(CmdSet("L/x", true, false, 1)); h.log.push_back("SETDATA+index L/x (to be refused)"); Check(h);
+   EXPECT(h, TrueIndex(h, L, &kids) == B && kids.size() == 4, "regress|refused_insert_left_a_trace", "children-per-node limit, SETDATA with add-to-index: index before " + Join(B) + ", after " + Join(TrueIndex(h, L)));
+   a->c->Send(CmdRemove("L/" + B[3], false)); a->c->Send(CmdInsert(Names(1, "L"), Names(1, "atEnd"))); h.log.push_back("REMOVE L/" + B[3] + "; INSERTORDERED L at the end"); Check(h);
+   Actor * late = AddActor(h, false); late->c->Send(CmdSubscribe(Names(1, "L"), false)); late->subs.push_back("L"); h.log.push_back("a late subscriber takes the snapshot"); Check(h);
+   EXPECT(h, TrueIndex(h, L).size() == 4 && w->lists[L] == late->lists[L], "regress|refusals_replay", "early subscriber " + Join(w->lists[L]) + ", late subscriber " + Join(late->lists[L]));
+   // nodes-per-session limit
+   SetLimits(h, MUSCLE_NO_LIMIT, 3); Actor * b = AddActor(h, false); const std::string Lb = b->c->root + "/L";
+   b->c->Send(CmdSet("L", false, false, 1)); b->c->Send(CmdInsert(Names(1, "L"), Names(3, "atEnd"))); h.log.push_back("node limit 3: SETDATA L; INSERTORDERED L x3 (the third to be refused)"); Check(h);
+   EXPECT(h, TrueIndex(h, Lb, &kids).size() == 2 && kids.size() == 2, "regress|refused_insert_left_a_trace", "nodes-per-session limit: index " + Join(TrueIndex(h, Lb)));
+   // depth limit
+   SetLimits(h, MUSCLE_NO_LIMIT, MUSCLE_NO_LIMIT); Actor * d = AddActor(h, false); const std::string c99 = Chain(MUSCLE_MAX_NODE_DEPTH - 3), c100 = Chain(MUSCLE_MAX_NODE_DEPTH - 2);
+   w->c->Send(CmdSubscribe(Names(1, c99), false)); w->subs.push_back(c99); d->c->Send(CmdSubscribe(Names(1, c100), false)); d->subs.push_back(c100);
+   d->c->Send(CmdSet(c100, false, false, 1)); Names both; both.push_back(c99); both.push_back(c100); d->c->Send(CmdInsert(both, Names(2, "atEnd"))); d->c->Send(CmdSet(c100 + "/y", true, false, 1));
+   h.log.push_back("a chain down to depth 100; INSERTORDERED x2 under the node at depth 99 (allowed) and under the node at depth 100 (to be refused); SETDATA+index under depth 100"); Check(h);
+   EXPECT(h, TrueIndex(h, d->c->root + "/" + c99).size() == 2 && TrueIndex(h, d->c->root + "/" + c100, &kids).empty() && kids.empty(), "regress|refused_insert_left_a_trace", "depth limit: index at depth 99 " + Join(TrueIndex(h, d->c->root + "/" + c99)) + ", at depth 100 " + Join(TrueIndex(h, d->c->root + "/" + c100)));
+   vh::stat("regress_refusals");
+}
 static void RegressOracleSelfTest()
 {
    // the replay function must object to every kind of misfit, and the comparison to a wrong list
@@ -867,6 +905,7 @@ int main(int argc, char ** argv)
       vh::begin_case(4); RegressDocExamples();
       vh::begin_case(5); RegressCloneOwnSubscription();
       vh::begin_case(6); RegressCloneTwice();
+      vh::begin_case(7); RegressRefusals();
       vh::distinct(1, true);
    } else if (mode == "index") {
       const long nOps = vh::optl("ops", 80);
